@@ -154,7 +154,7 @@ func caseFeatures(cs *rtCase) *feat {
 	return f
 }
 
-var notInUnionRE = regexp.MustCompile(`type "([^"]*)" is not in union type "([^"]*)"`)
+var notInUnionRE = regexp.MustCompile(`type "(.*)" is not in union type "(.*)"$`)
 
 func classifyRT(cs *rtCase, res rtResult) string {
 	const p = "C02:roundtrip:"
@@ -222,7 +222,7 @@ func notInUnionNamedMember(msg string) bool {
 	return m != nil && m[1] != m[2] && strings.Contains(m[2], "="+m[1])
 }
 
-var conflictRE = regexp.MustCompile(`decorator conflict enclosing context "([^"]*)" and decorator cast "([^"]*)"`)
+var conflictRE = regexp.MustCompile(`decorator conflict enclosing context "(.*)" and decorator cast "(.*)"$`)
 
 // "x=T" against "x=x=T": a short-form typedef `(=x)` applied to a value that the enclosing
 // decorator had already given the type x.
